@@ -49,9 +49,9 @@ def seg_string(node, vals):
     return node.id + '*' + '*'.join(parts)
 
 
-def path_for(rng, truth_rows, depth, want_ele=True):
+def path_for(rng, truth_rows, depth, want_ele=True, row=None):
     """a relative path from the tree root to a segment of the tree, from ground truth rows [path, inst, id, uid]"""
-    row = rng.choice(truth_rows)
+    row = row or rng.choice(truth_rows)
     loops = [x[0] for x in row[1][depth + 1:]]
     seg = row[2]
     qual = row[4]
@@ -152,6 +152,18 @@ def generate(rng, tier, run, seed=0):
                                 'ele': rng.randint(1, 4)}
             if op == 'set_value':
                 o['val'] = ''.join(rng.choice(V.PLAIN) for _ in range(rng.randint(1, 6)))
+                if h == 0 and shape.endswith(('NN', '-N')) and not shape.startswith('../') and rng.random() < 0.3:
+                    # an edit burst on one segment: several writes to different positions of the same segment (first far out,
+                    # then into the gap), each followed by the whole-tree comparison
+                    row = next((r_ for r_ in rows if p.split('[')[0].rstrip('0123456789-').endswith(r_[2])), None)
+                    if row is not None:
+                        ops.append(o)
+                        for _ in range(rng.choice([1, 2, 3])):
+                            p2, shape2 = path_for(rng, rows, depth, want_ele=True, row=row)
+                            o2 = {'op': 'set_value', 'h': 0, 'path': p2, 'shape': shape2,
+                                  'val': ''.join(rng.choice(V.PLAIN) for _ in range(rng.randint(1, 4)))}
+                            ops.append(o2)
+                        continue
         elif op in ('add_segment', 'add_loop', 'delete_segment'):
             if hl is None:
                 continue
